@@ -410,7 +410,7 @@ def try_discharge(prog, site):
             if ln is not None and ix is not None and 0 <= ix < ln:
                 return "const", f"constant index {ix} < constant length {ln}"
             if ln is not None:
-                r = _range_of(prog, body, ops[1])
+                r = _range_of(prog, body, ops[1], 0, F())
                 if r is not None and r[0] >= 0 and r[1] < ln:
                     return "range", f"index in [{r[0]},{r[1]}] < {ln}"
         if ak.startswith("overflow"):
@@ -429,8 +429,8 @@ def try_discharge(prog, site):
                 for (l, o, r_) in F():
                     if l == _strip(a) and _const_int(r_) is not None and ((o in (">=", "==") and _const_int(r_) >= cb) or (o == ">" and _const_int(r_) + 1 >= cb)):
                         return "guard", "minuend bounded below by a dominating comparison"
-            ra = _range_of(prog, body, a) if a else None
-            rb = _range_of(prog, body, b) if b else None
+            ra = _range_of(prog, body, a, 0, F()) if a else None
+            rb = _range_of(prog, body, b, 0, F()) if b else None
             if ra and rb and ty:
                 lo, hi = _int_bounds(ty)
                 if op == "Add" and lo <= ra[0] + rb[0] and ra[1] + rb[1] <= hi:
@@ -449,6 +449,11 @@ def try_discharge(prog, site):
                 bits = int(re.sub(r"\D", "", _operand_ty(body, t["ops"][0]) or ty) or 64)
                 if 0 <= rb[0] and rb[1] < bits:
                     return "range", f"shift by {rb} < {bits}"
+            if op == "Mul" and ty == "usize" and a is not None and b is not None:
+                la, lb = _len_of(a), _len_of(b)
+                c_ = cb if la is not None else (ca if lb is not None else None)
+                if c_ is not None and 0 <= c_ <= 64:
+                    return "memory", f"len() of an in-memory collection times {c_}: the product exceeds 2^64 only for a collection larger than any address space (len <= 2^57)"
             if op == "Add" and cb == 1 and ty in ("usize", "u64", "u128"):
                 return "counter", f"{ty} counter incremented by one per element/iteration: cannot reach 2^64 before memory/time is exhausted"
         if ak in ("div_zero", "rem_zero"):
@@ -581,6 +586,12 @@ def try_discharge(prog, site):
         name = site.what.rsplit("::", 1)[1]
         if name == "insert" and _const_int(site.operands[1]) == 0:
             return "const", "insert at byte 0 is always a char boundary"
+    if k == "call:slice-op":
+        name = site.what.rsplit("::", 1)[1]
+        if name in ("chunks", "chunks_exact", "windows") and len(site.operands) > 1:
+            n = _const_int(site.operands[1])
+            if n is not None and n > 0:
+                return "const", f"constant non-zero chunk size {n}"
     if k == "call:radix":
         r = _const_int(site.operands[1]) if len(site.operands) > 1 else None
         if r is not None and 2 <= r <= 36:
@@ -667,18 +678,77 @@ def _operand_ty(body, op):
     return None
 
 
-def _range_of(prog, body, d, depth=0):
+def _fact_bounds(facts, d):
+    """[lo, hi] for description d from comparison facts with constants (None for an open side)."""
+    if not facts:
+        return None
+    x = _strip(d)
+    lo = hi = None
+    for (a, op, b) in facts:
+        ca, cb = _const_int(a), _const_int(b)
+        if a == x and cb is not None:
+            if op == "==":
+                lo, hi = cb, cb
+            elif op == "<=":
+                hi = cb if hi is None else min(hi, cb)
+            elif op == "<":
+                hi = cb - 1 if hi is None else min(hi, cb - 1)
+            elif op == ">=":
+                lo = cb if lo is None else max(lo, cb)
+            elif op == ">":
+                lo = cb + 1 if lo is None else max(lo, cb + 1)
+        if b == x and ca is not None:
+            if op == "==":
+                lo, hi = ca, ca
+            elif op == ">=":
+                hi = ca if hi is None else min(hi, ca)
+            elif op == ">":
+                hi = ca - 1 if hi is None else min(hi, ca - 1)
+            elif op == "<=":
+                lo = ca if lo is None else max(lo, ca)
+            elif op == "<":
+                lo = ca + 1 if lo is None else max(lo, ca + 1)
+    if lo is not None and hi is not None:
+        return (lo, hi)
+    return None
+
+
+def _enumerate_index_bound(d):
+    """d = `.0` of an element yielded by enumerate() over iter() of a chunk from `chunks(N)` / an array of N: [0, N-1]."""
+    if not (isinstance(d, tuple) and d and d[0] == "field" and d[2] == 0):
+        return None
+    inner = d[1]
+    if not (isinstance(inner, tuple) and inner and inner[0] == "field" and inner[2] == 0):
+        return None
+    nx = inner[1]
+    if not (isinstance(nx, tuple) and nx and nx[0] == "call" and nx[1].endswith("::next")):
+        return None
+    if not desc_contains(nx, lambda y: y[0] == "call" and y[1].endswith("Iterator::enumerate")):
+        return None
+    for c in core.desc_calls(nx):
+        if re.search(r"slice::<impl \[T\]>::(chunks|chunks_exact)$", c[1]) and len(c[2]) > 1 and _const_int(c[2][1]):
+            return (0, _const_int(c[2][1]) - 1)
+    return None
+
+
+def _range_of(prog, body, d, depth=0, facts=None):
     """Interval [lo, hi] of an integer description, or None. Small constant evaluator."""
     if d is None or depth > 8 or not isinstance(d, tuple):
         return None
     c = _const_int(d)
     if c is not None:
         return (c, c)
+    fb = _fact_bounds(facts, d)
+    if fb is not None:
+        return fb
+    eb = _enumerate_index_bound(d)
+    if eb is not None:
+        return eb
     k = d[0]
     if k == "lit" and isinstance(d[1], bool):
         return (int(d[1]), int(d[1]))
     if k == "bin":
-        op, a, b = d[1], _range_of(prog, body, d[2], depth + 1), _range_of(prog, body, d[3], depth + 1)
+        op, a, b = d[1], _range_of(prog, body, d[2], depth + 1, facts), _range_of(prog, body, d[3], depth + 1, facts)
         if op in ("Rem", "RemWithOverflow") and b and b[0] > 0:
             return (0, b[1] - 1)
         if op in ("BitAnd",) and b and b[0] >= 0:
@@ -702,23 +772,34 @@ def _range_of(prog, body, d, depth=0):
         return None
     if k == "field" and d[2] == 0 and isinstance(d[1], tuple) and d[1] and d[1][0] == "bin":
         # (x op y).0 of a checked operation
-        return _range_of(prog, body, d[1], depth + 1)
+        return _range_of(prog, body, d[1], depth + 1, facts)
     if k == "call":
         name = d[1]
+        m = re.search(r"ops::(Add|Sub|Mul)(<[^>]*>)?>?::(add|sub|mul)$", name)
+        if m and len(d[2]) == 2:
+            a, b = _range_of(prog, body, _strip(d[2][0]), depth + 1, facts), _range_of(prog, body, _strip(d[2][1]), depth + 1, facts)
+            if a and b:
+                if m.group(3) == "add":
+                    return (a[0] + b[0], a[1] + b[1])
+                if m.group(3) == "sub":
+                    return (a[0] - b[1], a[1] - b[0])
+                cs = [a[0] * b[0], a[0] * b[1], a[1] * b[0], a[1] * b[1]]
+                return (min(cs), max(cs))
+            return None
         if re.search(r"num::<impl [iu](8|16|32|64|128|size)>::pow$", name) and len(d[2]) == 2:
             a, b = _range_of(prog, body, d[2][0], depth + 1), _range_of(prog, body, d[2][1], depth + 1)
             if a and b and a[0] >= 0 and 0 <= b[0] and b[1] < 128:
                 return (a[0] ** b[0], a[1] ** b[1])
             return None
+        if re.search(r"::from$|::into$", name) and d[2]:
+            return _range_of(prog, body, d[2][0], depth + 1, facts)
         if name.endswith("::len") or name.endswith("::count"):
             return None
         if re.search(r"char::methods::<impl char>::to_digit$", name):
             return None
-        if re.search(r"::from$|::into$", name) and d[2]:
-            return _range_of(prog, body, d[2][0], depth + 1)
         return None
     if k == "multi":
-        rs = [_range_of(prog, body, x, depth + 1) for x in d[1]]
+        rs = [_range_of(prog, body, x, depth + 1, facts) for x in d[1]]
         if all(rs):
             return (min(r[0] for r in rs), max(r[1] for r in rs))
         return None
